@@ -42,6 +42,8 @@ impl MT192 {
         // Parse optional field 79
         let field_79 = parser.parse_optional_field::<Field79>("79")?;
 
+        crate::parser::utils::verify_parser_complete(&parser)?;
+
         Ok(MT192 {
             field_20,
             field_21,
